@@ -100,7 +100,7 @@ def parse_rule(l):
         if act == _norm("ast::ArithmeticExpr::Assignment(x, Box::new(y))"):
             return ".assignOp %s none %d" % (_chars(lex), rp)
         raise RuntimeError("unexpected action of assignment rule: " + l)
-    m = re.match(r'^"([^"]+)"(?: !\[\'(.)\'\])? _ x:(\(@\)|@)$', pat)
+    m = re.match(r'^"([^"]+)"(?: !\("(.)" _ variable_name\(\)\))? _ x:(\(@\)|@)$', pat)
     if m:
         lex, nn, rp = m.group(1), m.group(2), (0 if m.group(3) == "(@)" else 1)
         a = re.match(r"^ast::ArithmeticExpr::UnaryOp\(ast::UnaryOperator::(\w+),Box::new\(x\)\)$", act)
@@ -642,7 +642,7 @@ def random_cases(rng, n, depth):
 def special_cases(rng, n_malformed):
     cs = []
     for e in ["--1", "++1", "- -1", "+ +1", "--x", "1 - --1", "-- 1", "++ 5", "2*--3", "~--1"]:
-        cs.append(("double_sign", e, {"x": "4"}, "double_sign_tokenization" if re.search(r"(--|\+\+)\s*[0-9]", e) else None))
+        cs.append(("double_sign", e, {"x": "4"}, None))
     for e in ["1 + x = 5", "1 ? 2 : x = 3", "2 * y += 1", "!x = 3", "-x = 3", "1 || x = 2", "0 && x = 2", "x + y = z = 1"]:
         cs.append(("assign_operand", e, {"x": "1", "y": "2"}, "assignment_as_operand_accepted"))
     for e, env in [(" ", {}), ("  \t ", {}), ("x", {"x": " "}), ("x+1", {"x": "\t"}), ("x*y", {"x": "  ", "y": "3"})]:
@@ -692,9 +692,6 @@ def clause_for(expr, env, tags, brush, bash):
     berr = bash[2].lower()
     brush_err = brush[0].startswith("e ")
     bash_err = bash[0].startswith("e ")
-    if brush_err and not bash_err:
-        if any(re.search(r"(?:^|[-+*/%<>=!~&|^?:,(])\s*(--|\+\+)\s*[-+0-9(!~]", t) for t in texts):
-            return "double_sign_tokenization"
     if bash_err and not brush_err and "attempted assignment to non-variable" in berr:
         return "assignment_as_operand_accepted"
     if bash_err and any(re.search(r"[-+*/%<>&|^!~:]\s*[A-Za-z_]\w*(\[[^\]]*\])?\s*([-+*/%&|^]|<<|>>)?=(?!=)", t) for t in texts):
@@ -783,6 +780,7 @@ def run(ctx):
         ctx.violation("brush panicked while evaluating arithmetic", {"output_tail": pn})
     nviol = 0
     nprop = 0
+    clean = []          # cases on which brush and bash agree at top level: the population of the context sweep
     for i, (bucket, expr, env, tags, want) in enumerate(cases):
         nontriv = bool(re.search(r"[-+*/%<>=!~&|^?,]", expr))
         ctx.count((expr, tuple(sorted(env.items()))), nontrivial=nontriv, bucket=bucket)
@@ -836,11 +834,14 @@ def run(ctx):
         else:
             if ores[0].startswith("e "):
                 ctx.bucket("both_error_" + ores[0][2:])
+            if not quirk and ores[0] != "e other" and bres[0] != "<missing>" and bucket != "corpus":
+                clean.append(i)
     k = len(cases) // 3
     for j in (k, 2 * k, n - 1):
         ctx.sample({"expr": cases[j][1], "env": cases[j][2], "brush": hout[n + j], "model": mout[n + j], "bash": bash[j][:2]})
     contexts(ctx)
     deref_contexts(ctx)
+    context_sweep(ctx, [(cases[i][0], cases[i][1], cases[i][2], bash[i][0]) for i in clean])
     ctx.cov["rule"] = ("exhaustive: 20 binary ops x 15^2 boundary operands, 4 unary, 4 inc/dec, 11 assignment ops x 15^2, every ordered pair "
                        "of binary operators in both groupings with minimal parentheses, unary/assignment/conditional against every binary "
                        "operator, laziness cases, 25 boundary values in 13 literal forms; seeded random trees to depth %d over all operators "
@@ -859,6 +860,12 @@ ISOLATED = [
     ("shift_in_parameter_expansion_read_as_heredoc", 'Q=(10 20 30 40); a=1\necho "${Q[(1 << a) & 3]}"\n'),
     ("shift_in_parameter_expansion_read_as_heredoc", 'S=abcdefghij; a=1\necho "${S:1 << a:2}"\n'),
     ("arithmetic_error_in_command_aborts_list", '(( 1/0 )); echo "status $?"\n'),
+    ("shift_after_double_paren_read_as_heredoc", '(( x = ((1))<<2 )); echo "$x"\n'),
+    ("shift_after_double_paren_read_as_heredoc", 'for (( x = ((1)) << 2 ; 0 ; )); do :; done; echo "$x"\n'),
+    ("unquoted_metachar_in_assignment_subscript", 'Q[(1+1)]=z; echo "${!Q[*]}"\n'),
+    ("unquoted_metachar_in_assignment_subscript", 'Q[1 + 1]=z\necho "${!Q[*]}"\n'),
+    ("unquoted_metachar_in_assignment_subscript", 'x=2; Q[x>1?4:5]=z; echo "${!Q[*]}"\n'),
+    ("unquoted_metachar_in_assignment_subscript", 'Q=([1+1]=a [(2 > 1)+3]=b); echo "${!Q[*]}"\n'),
 ]
 
 
@@ -987,14 +994,241 @@ def deref_contexts(ctx):
 def deref_ctx_clause(k, v, b, o):
     """recorded defect classes, by the feature of the variable's contents"""
     w = v.strip()
-    if re.match(r"^(--|\+\+)", w) or re.match(r"^[-+!~]\s*(--|\+\+)", w):
-        return "double_sign_tokenization"        # brush: parse error; bash: two unary signs
     m = re.search(r"0[xX][0-9a-fA-F]*$|[0-9]+$", w)
     if m and "#" not in w:
         t = m.group(0)
         if re.fullmatch(r"0[xX]", t) or (re.fullmatch(r"0[xX][0-9a-fA-F]+|0[0-7]*|[1-9][0-9]*", t) and lit_value(t)[1]):
             return "literal_overflow_rejected"   # brush: parse error; bash: wraps
     return None
+
+
+# ------------------------------------------------------------------------------------------------
+# context sweep: the same expression carried by every arithmetic context, in every execution context, under
+# options that must not matter, and evaluated repeatedly in one process (parse cache)
+
+SWEEP_OPTIONS = ["set -u", "set -f", "set -e", "set -E", "set -T", "set +h", "set -C", "set -o posix",
+                 "shopt -s extglob", "shopt -s nullglob", "shopt -s dotglob", "shopt -s nocasematch", "shopt -s globstar",
+                 "shopt -s expand_aliases", "shopt -s lastpipe", "shopt -s inherit_errexit"]
+
+
+def sweep_blocks(cid, expr, env):
+    """-> list of (context name, script text).  Every block is a subshell of its own (state cannot leak between
+    blocks) that prints lines `#<cid>.<ctx> <tag> ...`; everything else on stdout/stderr is ignored."""
+    def ident(c):
+        return "%s.%s" % (cid, c)
+    unset = "unset " + " ".join(UNIVERSE)
+    sets = " ".join("%s=%s" % (k, sq(v)) for k, v in sorted(env.items()))
+    pre = unset + ("\n" + sets if sets else "")
+
+    def val(c, e=None, tag="v"):
+        return 'echo "#%s %s $(( %s ))"' % (ident(c), tag, e if e is not None else expr)
+
+    def dmp(c, tag="s"):
+        return 'echo "#%s %s %s"' % (ident(c), tag, DUMP)
+
+    def body(c):
+        return val(c) + "\n" + dmp(c)
+    B = []
+
+    def add(c, text):
+        B.append((c, "(\n" + text + "\n)"))
+    keys = sorted(env)
+    hide = " ".join("%s=77" % k for k in keys)
+    loc = lambda ks: ("local " + " ".join("%s=%s" % (k, sq(env[k])) for k in ks)) if ks else ":"
+    # --- execution contexts, carrier $(( ))
+    add("top", pre + "\n" + body("top"))
+    add("func", pre + "\nf_() {\n" + body("func") + "\n}\nf_\n" + dmp("func", "g"))
+    add("local", unset + ("\n" + hide if hide else "") + "\nf_() {\n" + loc(keys) + "\n" + body("local") + "\n}\nf_\n" + dmp("local", "g"))
+    h1, h2 = keys[::2], keys[1::2]
+    add("deep", unset + ("\n" + hide if hide else "") + "\nf_() {\n" + loc(h2) + "\n" + body("deep") + "\n}\ng_() {\n" + loc(h1) + "\nf_\n"
+        + dmp("deep", "h") + "\n}\ng_\n" + dmp("deep", "g"))
+    add("subshell", pre + "\n(\n" + body("subshell") + "\n)\n" + dmp("subshell", "g"))
+    add("cmdsub", pre + "\nr_=$(\n" + body("cmdsub") + "\n)\necho \"$r_\"\n" + dmp("cmdsub", "g"))
+    add("eval", pre + "\neval '" + body("eval") + "'")
+    add("brace", pre + "\n{\n" + body("brace") + "\n} 3>/dev/null")
+    add("lastpipe", "shopt -s lastpipe\n" + pre + "\n: | {\n" + body("lastpipe") + "\n}\n" + dmp("lastpipe", "g"))
+    add("for", pre + "\nfor q_ in 1; do\n" + body("for") + "\ndone")
+    add("while", pre + "\nwhile :; do\n" + body("while") + "\nbreak\ndone")
+    # an EXIT handler: brush does not run EXIT traps set inside ( … ) (C16's subject, not arithmetic), so the handler is the
+    # script's own, registered as the last command of the chunk's script: one case per script gets this context
+    B.append(("trap", pre + "\ntrap '" + body("trap") + "' EXIT"))
+    add("source", pre + "\ncat > ./src_ <<'EOF_'\n" + body("source") + "\nEOF_\n. ./src_")
+    add("twice", pre + "\n" + body("twice") + "\n" + val("twice", tag="v2") + "\n" + dmp("twice", "s2"))
+    add("posarg", pre + "\nf_() {\n" + val("posarg", "(%s) + $1 * ${2} - $#" % expr) + "\n" + dmp("posarg") + "\n}\nf_ 010 -3")
+    add("posset", pre + "\nset -- 0x10 7 z\n" + val("posset", "$1 - (%s) * $2 + $#" % expr) + "\n" + dmp("posset"))
+    # --- the other arithmetic contexts as carriers of the same expression
+    # `(( … ))` / `for (( … ))`: after an inner `))` brush's tokenizer takes a later `<<` for a here-document operator and
+    # rejects the whole script (clause shift_after_double_paren_read_as_heredoc, own witnesses in ISOLATED)
+    arith_cmd_ok = not re.search(r"\)\s*\).*<<", expr)
+    def add_cmd(c, text):
+        if arith_cmd_ok:
+            add(c, text)
+    add_cmd("cmd", pre + "\n(( " + expr + " ))\n" + 'echo "#%s r $?"' % ident("cmd") + "\n" + dmp("cmd"))
+    add("let", pre + "\nlet " + sq(expr) + "\n" + 'echo "#%s r $?"' % ident("let") + "\n" + dmp("let"))
+    add_cmd("forinit", pre + "\nfor (( " + expr + " ; 0 ; )); do :; done\n" + dmp("forinit"))
+    add_cmd("forcond", pre + "\nfor (( ; " + expr + " ; )); do\n" + 'echo "#%s t"' % ident("forcond") + "\nbreak\ndone\n" + dmp("forcond"))
+    add_cmd("forstep", pre + "\nfor (( k_=0 ; k_<1 ; k_++ , " + expr + " )); do :; done\n" + dmp("forstep"))
+    add("test", pre + "\n[[ \"" + expr + "\" -lt 1 ]]\n" + 'echo "#%s r $?"' % ident("test") + "\n" + dmp("test"))
+    # the subscript is quoted: unquoted, brush's tokenizer rejects blanks, parentheses and operator characters in the
+    # subscript of an assignment word (clause unquoted_metachar_in_assignment_subscript, own witnesses in ISOLATED)
+    add("sublhs", pre + "\nQ_[\"(" + expr + ")&7\"]=z\n" + 'echo "#%s k ${!Q_[*]}"' % ident("sublhs") + "\n" + dmp("sublhs"))
+    # no `<` / `>` inside ${…}: `<<` there is clause shift_in_parameter_expansion_read_as_heredoc (own witnesses), and bash
+    # itself re-tokenizes an unspaced `(z<=3)` inside "${a[…]}" / "${s:…}" into `z < =3` (a bash quirk, not arithmetic)
+    if "<" not in expr and ">" not in expr:
+        add("subrhs", pre + "\nQ_=(q0 q1 q2 q3 q4 q5 q6 q7)\n" + 'echo "#%s e ${Q_[(%s)&7]}"' % (ident("subrhs"), expr) + "\n" + dmp("subrhs"))
+        add("substr", pre + "\nS_=abcdefghijkl\n" + 'echo "#%s e ${S_:(%s)&7:2}"' % (ident("substr"), expr) + "\n" + dmp("substr"))
+    if "[" not in expr and arith_cmd_ok:        # `$[ … ]` shares the `))`-then-`<<` tokenizer defect
+        add("dbracket", pre + "\n" + 'echo "#%s v $[ %s ]"' % (ident("dbracket"), expr) + "\n" + dmp("dbracket"))
+    add("locali", pre + "\nf_() {\nlocal -i I_\nI_=" + sq(expr) + "\n" + 'echo "#%s e $I_"' % ident("locali") + "\n}\nf_")
+    # --- options that must not matter (bash under the same option is the oracle where one does)
+    for k, opt in enumerate(SWEEP_OPTIONS):
+        c = "opt%d" % k
+        B.append((c, "(\n" + opt + "\n" + pre + "\n" + body(c) + "\n)\n" + 'echo "#%s rc $(( $? != 0 ))"' % ident(c)))
+    return B
+
+
+def run_sweep_script(which, script, timeout=600):
+    return run_script(which, script, timeout)[1]
+
+
+def sweep_outputs(text):
+    d = {}
+    for l in text.split("\n"):
+        m = re.match(r"^#(\d+\.\w+) (.*)$", l)
+        if m:
+            d.setdefault(m.group(1), []).append(m.group(2))
+    return d
+
+
+def sweep_clause(c, expr, env, b, o):
+    """recorded defect classes a context difference may belong to"""
+    if c == "locali":
+        return "integer_attribute_assignment_not_evaluated"
+    return None
+
+
+def context_sweep(ctx, population):
+    """population: (bucket, expr, env, bash's top-level result) of cases on which brush and bash agree at top level"""
+    rng = ctx.rng
+    # only cases that evaluate to a value: what happens to the rest of a function / list / subshell after an arithmetic
+    # *error* differs between the shells by context (bash unwinds to the top level; clause
+    # arithmetic_error_in_command_aborts_list and C02/C03's subject), which would drown the arithmetic question
+    pop = [p for p in population if "\n" not in p[1] and p[3].startswith("v ") and p[1].strip()]
+    if not pop:
+        return
+    nsample = ctx.size(360, 5000)
+    # half from the exhaustive families, half from the random ones, so every operator family is met
+    exh = [p for p in pop if p[0].startswith("exh")]
+    rnd = [p for p in pop if not p[0].startswith("exh")]
+    sample = rng.sample(exh, min(len(exh), nsample // 2)) + rng.sample(rnd, min(len(rnd), nsample - nsample // 2))
+    blocks = {}
+    per_case = []
+    for cid, (bucket, expr, env, _) in enumerate(sample):
+        bl = sweep_blocks(cid, expr, env)
+        per_case.append(bl)
+        for c, text in bl:
+            blocks["%d.%s" % (cid, c)] = text
+    chunks = lib.chunked(list(range(len(sample))), max(lib.NCPU, len(sample) // 8))
+
+    def chunk_script(idx):
+        parts = [text for cid in idx for c, text in per_case[cid] if c != "trap"]
+        parts += [text for c, text in per_case[idx[-1]] if c == "trap"]      # last: the script's EXIT handler
+        return "\n".join(parts) + "\n"
+
+    def one(idx):
+        scr = chunk_script(idx)
+        return run_sweep_script("brush", scr), run_sweep_script("bash", scr)
+    outs = lib.pmap(one, chunks)
+    db, do = {}, {}
+    for idx, (rb, ro) in zip(chunks, outs):
+        if "panicked at" in rb:
+            ctx.violation("brush panicked in the context sweep", {"output_tail": rb[-600:]})
+        b1 = sweep_outputs(rb)
+        if idx and not b1:
+            ctx.violation("brush produced nothing for a context-sweep script (the script as a whole was rejected?)",
+                          {"script": chunk_script(idx[:1]), "brush_output": rb[-600:]})
+        db.update(b1)
+        do.update(sweep_outputs(ro))
+    nv = 0
+    for cid, (bucket, expr, env, _) in enumerate(sample):
+        for c, text in per_case[cid]:
+            if c == "trap" and not any(idx and idx[-1] == cid for idx in chunks):
+                continue
+            key = "%d.%s" % (cid, c)
+            name = SWEEP_OPTIONS[int(c[3:])] if c.startswith("opt") else c
+            ctx.count(("sweep", c, expr, tuple(sorted(env.items()))), bucket="sweep_" + ("option" if c.startswith("opt") else c))
+            b, o = db.get(key), do.get(key)
+            if b == o:
+                continue
+            case = {"context": name, "expr": expr, "env": env, "script": text, "brush": b, "bash": o}
+            cl = sweep_clause(c, expr, env, b, o)
+            if cl:
+                ctx.bucket("known:" + cl)
+                ctx.known_or_violation(cl, "brush and bash disagree in context %s" % name, case)
+            elif nv < 20:
+                nv += 1
+                ctx.violation("brush and bash agree on $(( %s )) at top level but disagree in context `%s`" % (expr[:60], name), case)
+    repeated_evaluation(ctx, [p for p in pop if p[3].startswith("v ")])
+
+
+def repeated_evaluation(ctx, pop):
+    """One process, many evaluations (the parser keeps a 64-entry cache keyed on the text): the same expression in three
+    blank layouts, the same text again after its variables changed, and again after more than 64 other expressions."""
+    rng = ctx.rng
+    exprs = rng.sample(pop, min(len(pop), ctx.size(600, 6000)))
+    chunks = lib.chunked(exprs, lib.NCPU)
+
+    def relayout(e, how):
+        toks = re.findall(r"[A-Za-z_0-9#@]+|\*\*|<<=|>>=|<<|>>|<=|>=|==|!=|&&|\|\||\+\+|--|[-+*/%&|^]=|.", e.replace("\t", " "))
+        toks = [t for t in toks if t.strip()]
+        out = ""
+        for t in toks:
+            sep = {"min": "", "sp": " ", "wide": " \t "}[how]
+            if out and sep == "" and ((out[-1] in "+-" and t[0] == out[-1]) or (re.match(r"\w", out[-1]) and re.match(r"\w", t[0]))):
+                sep = " "
+            if out and t == "[" or (out and out[-1] == "["):     # no blank between a name and its subscript bracket
+                sep = ""
+            out += sep + t if out else t
+        return out
+
+    def script(ch, base):
+        lines = []
+        unset = "unset " + " ".join(UNIVERSE)
+        for rnd in ("A", "B", "C", "D"):
+            for k, (bucket, expr, env, _) in enumerate(ch):
+                i = base + k
+                sets = " ".join("%s=%s" % (kk, sq(v)) for kk, v in sorted(env.items()))
+                how = {"A": "sp", "B": "min", "C": "wide", "D": "sp"}[rnd]
+                e = relayout(expr, how)
+                lines.append(unset)
+                if rnd == "D":           # same text as round A, other variable values: nothing of round A may be remembered
+                    lines.append(" ".join("%s=%d" % (v, 3 + j) for j, v in enumerate(VARS)))
+                elif sets:
+                    lines.append(sets)
+                lines.append('echo "#%d.%s v $(( %s ))"' % (i, rnd, e))
+                lines.append('echo "#%d.%s s %s"' % (i, rnd, DUMP))
+        return "\n".join(lines) + "\n"
+    jobs, base = [], 0
+    for ch in chunks:
+        jobs.append((script(ch, base), base, ch))
+        base += len(ch)
+
+    def one(job):
+        return run_sweep_script("brush", job[0]), run_sweep_script("bash", job[0])
+    outs = lib.pmap(one, jobs)
+    nv = 0
+    for (scr, base, ch), (rb, ro) in zip(jobs, outs):
+        b1, o1 = sweep_outputs(rb), sweep_outputs(ro)
+        for k, (bucket, expr, env, _) in enumerate(ch):
+            for rnd in "ABCD":
+                key = "%d.%s" % (base + k, rnd)
+                ctx.count(("repeat", rnd, expr, tuple(sorted(env.items()))), bucket="repeat_" + rnd)
+                if b1.get(key) != o1.get(key) and nv < 10:
+                    nv += 1
+                    ctx.violation("repeated evaluation in one process: brush and bash disagree (round %s of: spaced, minimal, wide, "
+                                  "spaced again with other variable values)" % rnd,
+                                  {"expr": expr, "env": env, "round": rnd, "brush": b1.get(key), "bash": o1.get(key),
+                                   "note": "the whole script of this chunk evaluates %d expressions in one process" % (4 * len(ch))})
 
 
 def replay(ctx, rp):
@@ -1004,6 +1238,16 @@ def replay(ctx, rp):
         print(json.dumps(case, indent=1))
         return 1
     expr, env = case["expr"], case.get("env") or {}
+    if "script" in case:
+        b, o = run_sweep_script("brush", case["script"] + "\n"), run_sweep_script("bash", case["script"] + "\n")
+        bl = [l for l in b.split("\n") if l.startswith("#")]
+        ol = [l for l in o.split("\n") if l.startswith("#")]
+        print("context:", case.get("context"), " expr:", repr(expr), " env:", env)
+        print("script:\n" + case["script"])
+        print("brush:", bl)
+        print("bash: ", ol)
+        print("property on brush:", "FAILS" if bl != ol else "holds (brush == bash)")
+        return 1 if bl != ol else 0
     if "context" in case:
         print(json.dumps(case, indent=1))
         return 1
